@@ -6,8 +6,10 @@ R-C21.2  every dunder of expr_checker.binary_table / unary_table that some Guppy
          implements exists on DunderMixin with the matching decorator
          (@binary_operation / @unary_operation); the mocked builtins int/float/len forward
          to the same-named dunder and the mock dict maps each name to the same-named mock.
-R-C21.3  binary_operation resolves the reflected method through the tables in the right
-         direction and swaps the operands; the derived tables are keyed the right way.
+R-C21.3  the wrapper built by binary_operation is interpreted for a forward and a reflected dunder x {direct method succeeds,
+         raises a Guppy error, raises something else} x {partner method succeeds, raises}: direct method first with
+         (self, other); on failure the partner named by the table, called ON other WITH self; GuppyTypeError if both fail
+         (c21_reflected.py); the derived tables are keyed the right way.
 Not decided: the results of tracing.
 """
 
@@ -180,47 +182,50 @@ def run(ctx: Ctx) -> None:
                    or (tname == "reverse_binary_table" and pos[k] == 1 and pos[first] == 0)))
         ctx.check(ok, "R-C21.3", key, f"{obj_mod.rel}", {"key": k, "value_first": first, "unpack": tgt, "source": src},
                   "the forward/reverse operator tables used by the comptime fallback are keyed the wrong way round")
-    bo = idx.find_func("binary_operation", obj_mod.name)
-    wrapped = next((n for n in ast.walk(bo.node) if isinstance(n, ast.FunctionDef) and n is not bo.node), None)
-    key = f"{bo.qualname}#reflected-fallback"
-    if wrapped is None:
-        ctx.undecided("R-C21.3", key, bo.where, "no inner wrapper function")
-    else:
-        wp = [a.arg for a in wrapped.args.args]
-        fact: dict = {"wrapper_params": wp}
-        # (a) direction of the table lookup
-        dir_ok = None
-        for n in ast.walk(wrapped):
-            if isinstance(n, ast.If) and isinstance(n.test, ast.Compare) and len(n.test.ops) == 1 and isinstance(n.test.ops[0], ast.In):
-                tbl = dotted(n.test.comparators[0])
-                if tbl in ("binary_table", "reverse_binary_table"):
-                    then_tbls = {dotted(s.value) for b in n.body for s in ast.walk(b) if isinstance(s, ast.Subscript)}
-                    else_tbls = {dotted(s.value) for b in n.orelse for s in ast.walk(b) if isinstance(s, ast.Subscript)}
-                    other_tbl = "reverse_binary_table" if tbl == "binary_table" else "binary_table"
-                    fact.update({"test_table": tbl, "then": sorted(then_tbls), "else": sorted(else_tbls)})
-                    dir_ok = tbl in then_tbls and other_tbl not in then_tbls and (not n.orelse or (other_tbl in else_tbls and tbl not in else_tbls))
-        # (b) operands swapped on the reflected call:  other.__getattr__(reverse_method)(self)
-        swap_ok = None
-        for c in ast.walk(wrapped):
-            if (isinstance(c, ast.Call) and isinstance(c.func, ast.Call) and isinstance(c.func.func, ast.Attribute)
-                    and c.func.func.attr in ("__getattr__", "_get_method")):
-                recv = dotted(c.func.func.value)
-                args = [dotted(a) for a in c.args]
-                fact.update({"reflected_receiver": recv, "reflected_args": args})
-                if len(wp) == 2:
-                    swap_ok = recv == wp[1] and args == [wp[0]]
-        # (c) forward attempt passes (self, other) in order
-        fwd_ok = None
-        for c in ast.walk(wrapped):
-            if isinstance(c, ast.Call) and isinstance(c.func, ast.Name) and c.func.id == bo.node.args.args[0].arg:
-                fwd = [dotted(a) for a in c.args]
-                fact["forward_args"] = fwd
-                fwd_ok = fwd == wp
-        if None in (dir_ok, swap_ok, fwd_ok):
-            ctx.undecided("R-C21.3", key, bo.where, f"fallback shape not recognised: {fact}")
+    from . import c21_reflected
+    if not c21_reflected.run(ctx):
+        # fallback: the wrapper's shape (table test, swapped reflected call, ordered forward call)
+        bo = idx.find_func("binary_operation", obj_mod.name)
+        wrapped = next((n for n in ast.walk(bo.node) if isinstance(n, ast.FunctionDef) and n is not bo.node), None)
+        key = f"{bo.qualname}#reflected-fallback"
+        if wrapped is None:
+            ctx.undecided("R-C21.3", key, bo.where, "no inner wrapper function")
         else:
-            ctx.check(dir_ok and swap_ok and fwd_ok, "R-C21.3", key, bo.where, fact,
-                      "the reflected-operator fallback looks the method up in the wrong table or does not swap operands")
+            wp = [a.arg for a in wrapped.args.args]
+            fact: dict = {"wrapper_params": wp}
+            # (a) direction of the table lookup
+            dir_ok = None
+            for n in ast.walk(wrapped):
+                if isinstance(n, ast.If) and isinstance(n.test, ast.Compare) and len(n.test.ops) == 1 and isinstance(n.test.ops[0], ast.In):
+                    tbl = dotted(n.test.comparators[0])
+                    if tbl in ("binary_table", "reverse_binary_table"):
+                        then_tbls = {dotted(s.value) for b in n.body for s in ast.walk(b) if isinstance(s, ast.Subscript)}
+                        else_tbls = {dotted(s.value) for b in n.orelse for s in ast.walk(b) if isinstance(s, ast.Subscript)}
+                        other_tbl = "reverse_binary_table" if tbl == "binary_table" else "binary_table"
+                        fact.update({"test_table": tbl, "then": sorted(then_tbls), "else": sorted(else_tbls)})
+                        dir_ok = tbl in then_tbls and other_tbl not in then_tbls and (not n.orelse or (other_tbl in else_tbls and tbl not in else_tbls))
+            # (b) operands swapped on the reflected call:  other.__getattr__(reverse_method)(self)
+            swap_ok = None
+            for c in ast.walk(wrapped):
+                if (isinstance(c, ast.Call) and isinstance(c.func, ast.Call) and isinstance(c.func.func, ast.Attribute)
+                        and c.func.func.attr in ("__getattr__", "_get_method")):
+                    recv = dotted(c.func.func.value)
+                    args = [dotted(a) for a in c.args]
+                    fact.update({"reflected_receiver": recv, "reflected_args": args})
+                    if len(wp) == 2:
+                        swap_ok = recv == wp[1] and args == [wp[0]]
+            # (c) forward attempt passes (self, other) in order
+            fwd_ok = None
+            for c in ast.walk(wrapped):
+                if isinstance(c, ast.Call) and isinstance(c.func, ast.Name) and c.func.id == bo.node.args.args[0].arg:
+                    fwd = [dotted(a) for a in c.args]
+                    fact["forward_args"] = fwd
+                    fwd_ok = fwd == wp
+            if None in (dir_ok, swap_ok, fwd_ok):
+                ctx.undecided("R-C21.3", key, bo.where, f"fallback shape not recognised: {fact}")
+            else:
+                ctx.check(dir_ok and swap_ok and fwd_ok, "R-C21.3", key, bo.where, fact,
+                          "the reflected-operator fallback looks the method up in the wrong table or does not swap operands")
     ctx.assumptions.append("std dunder implementations are found as methods named __x__ inside classes under guppylang/std")
 
     # ---------------- R-C21.4 write-back after a borrowing call re-points every traced leaf
